@@ -7,6 +7,21 @@ rules, lock `rulesTreeMutex`, publish the index, unlock both) or a *reader* (`Fi
 search, unlock).  The sequential meaning of a change and of a lookup is a parameter (`Seq`; instantiated with the
 repository model of C06).  Ghost state: `log`, the committed changes in commit order, and `owners`, the threads
 that committed them.
+
+**Panics.**  The search of a lookup calls the route matchers, the computation of a change calls into the rules
+(`Routes()`, `Path()`): either may panic, and the panic is recovered far above the repository (the recover
+middleware of the request goroutine, the provider's event loop), so the goroutine ends but the process lives on.
+What happens to the locks the goroutine holds depends on the *release discipline* of the source, a parameter of
+the machine (`Discipline`, read off the extracted protocol by `disciplineOf` in `Model/RepoProtocol.lean`):
+a deferred unlock runs while the panic unwinds (`rPanicReleased`, `wPanicReleased`), an explicit unlock after the
+call is skipped and the lock stays held for ever (`rPanicLeaked`, `wPanicLeaked`).  A panic may strike any reader
+during its search and any writer during the clone or the computation on the private clone, at any time, any
+number of times.
+
+**Pending writers.**  `rulesTreeMutex` is Go's `sync.RWMutex`: `Lock()` first announces the writer — from then on
+new `RLock()` calls block — and then waits until the readers that already hold the lock have left.  The machine
+takes the two halves as two steps (`wRWRequest`, `wRWAcquire`); `rww = some i` means "writer `i` is pending or
+holds the lock", and `rLock` needs `rww = none`.
 -/
 namespace Heimdall.Conc
 
@@ -16,13 +31,27 @@ structure Seq (K T Op Req Ans : Type) where
   look  : T → Req → Ans
   init  : K × T
 
+/-- How the source releases its locks: by a deferred unlock registered right after the lock was taken (runs on
+    every way out, a panic included) or by an explicit unlock after the protected calls (skipped by a panic). -/
+structure Discipline where
+  /-- `FindRule`: `defer r.rulesTreeMutex.RUnlock()` -/
+  readerDeferred : Bool
+  /-- the writer methods: `defer r.knownRulesMutex.Unlock()` -/
+  writerDeferred : Bool
+deriving DecidableEq, Repr
+
+/-- the discipline the proofs of deadlock freedom are about (and the obligations demand of the source) -/
+def Discipline.deferred : Discipline := ⟨true, true⟩
+
 inductive WPc where
-  | idle | locked | readK | cloned | computed | failed | knownWritten | rwHeld | indexWritten | rwReleased
+  | idle | locked | readK | cloned | computed | failed | knownWritten | rwWaiting | rwHeld | indexWritten | rwReleased
   | doneOk | doneFail
+  | crashed                     -- the clone or the computation panicked; the goroutine is gone
 deriving DecidableEq, Repr
 
 inductive RPc where
   | idle | rHeld | searched | done
+  | crashed                     -- the search panicked; the goroutine is gone
 deriving DecidableEq, Repr
 
 inductive Thread (K T Op Req Ans : Type) where
@@ -35,7 +64,7 @@ structure Config (K T Op Req Ans : Type) where
   known   : K
   index   : T
   wlock   : Option Nat          -- holder of knownRulesMutex
-  rww     : Option Nat          -- write holder of rulesTreeMutex
+  rww     : Option Nat          -- writer pending on or holding rulesTreeMutex
   readers : Nat                 -- read holders of rulesTreeMutex
   log     : List Op             -- ghost: committed changes, in commit order
   owners  : List Nat            -- ghost: the threads that committed them
@@ -48,49 +77,73 @@ def run (s : Seq K T Op Req Ans) (ops : List Op) : K × T :=
   ops.foldl (fun st o => (s.apply st o).getD st) s.init
 
 open Thread in
-inductive Step (s : Seq K T Op Req Ans) : Config K T Op Req Ans → Config K T Op Req Ans → Prop
+inductive Step (d : Discipline) (s : Seq K T Op Req Ans) : Config K T Op Req Ans → Config K T Op Req Ans → Prop
   | wLock (c i op loc) (h : c.threads i = writer op .idle loc) (free : c.wlock = none) :
-      Step s c { c with wlock := some i, threads := upd c.threads i (writer op .locked loc) }
+      Step d s c { c with wlock := some i, threads := upd c.threads i (writer op .locked loc) }
   | wReadKnown (c i op loc) (h : c.threads i = writer op .locked loc) (hl : c.wlock = some i) :
-      Step s c { c with threads := upd c.threads i (writer op .readK (c.known, loc.2)) }
+      Step d s c { c with threads := upd c.threads i (writer op .readK (c.known, loc.2)) }
   | wClone (c i op loc) (h : c.threads i = writer op .readK loc) (hl : c.wlock = some i) :
-      Step s c { c with threads := upd c.threads i (writer op .cloned (loc.1, c.index)) }
+      Step d s c { c with threads := upd c.threads i (writer op .cloned (loc.1, c.index)) }
   | wComputeOk (c i op loc st') (h : c.threads i = writer op .cloned loc) (hl : c.wlock = some i)
       (ha : s.apply loc op = some st') :
-      Step s c { c with threads := upd c.threads i (writer op .computed st') }
+      Step d s c { c with threads := upd c.threads i (writer op .computed st') }
   | wComputeErr (c i op loc) (h : c.threads i = writer op .cloned loc) (hl : c.wlock = some i)
       (ha : s.apply loc op = none) :
-      Step s c { c with threads := upd c.threads i (writer op .failed loc) }
+      Step d s c { c with threads := upd c.threads i (writer op .failed loc) }
   | wFail (c i op loc) (h : c.threads i = writer op .failed loc) (hl : c.wlock = some i) :
-      Step s c { c with wlock := none, threads := upd c.threads i (writer op .doneFail loc) }
+      Step d s c { c with wlock := none, threads := upd c.threads i (writer op .doneFail loc) }
   | wKnown (c i op st') (h : c.threads i = writer op .computed st') (hl : c.wlock = some i) :
-      Step s c { c with known := st'.1, threads := upd c.threads i (writer op .knownWritten st') }
-  | wRWLock (c i op st') (h : c.threads i = writer op .knownWritten st')
-      (free : c.rww = none) (nor : c.readers = 0) :
-      Step s c { c with rww := some i, threads := upd c.threads i (writer op .rwHeld st') }
+      Step d s c { c with known := st'.1, threads := upd c.threads i (writer op .knownWritten st') }
+  | wRWRequest (c i op st') (h : c.threads i = writer op .knownWritten st') (free : c.rww = none) :
+      Step d s c { c with rww := some i, threads := upd c.threads i (writer op .rwWaiting st') }
+  | wRWAcquire (c i op st') (h : c.threads i = writer op .rwWaiting st') (hl : c.rww = some i)
+      (nor : c.readers = 0) :
+      Step d s c { c with threads := upd c.threads i (writer op .rwHeld st') }
   | wIndex (c i op st') (h : c.threads i = writer op .rwHeld st') (hl : c.rww = some i) :
-      Step s c { c with index := st'.2, log := c.log ++ [op], owners := c.owners ++ [i],
-                        threads := upd c.threads i (writer op .indexWritten st') }
+      Step d s c { c with index := st'.2, log := c.log ++ [op], owners := c.owners ++ [i],
+                          threads := upd c.threads i (writer op .indexWritten st') }
   | wRWUnlock (c i op st') (h : c.threads i = writer op .indexWritten st') (hl : c.rww = some i) :
-      Step s c { c with rww := none, threads := upd c.threads i (writer op .rwReleased st') }
+      Step d s c { c with rww := none, threads := upd c.threads i (writer op .rwReleased st') }
   | wUnlock (c i op st') (h : c.threads i = writer op .rwReleased st') (hl : c.wlock = some i) :
-      Step s c { c with wlock := none, threads := upd c.threads i (writer op .doneOk st') }
+      Step d s c { c with wlock := none, threads := upd c.threads i (writer op .doneOk st') }
   | rLock (c i rq) (h : c.threads i = reader rq .idle none 0 0) (free : c.rww = none) :
-      Step s c { c with readers := c.readers + 1, rset := i :: c.rset,
-                        threads := upd c.threads i (reader rq .rHeld none c.log.length 0) }
+      Step d s c { c with readers := c.readers + 1, rset := i :: c.rset,
+                          threads := upd c.threads i (reader rq .rHeld none c.log.length 0) }
   | rSearch (c i rq st) (h : c.threads i = reader rq .rHeld none st 0) :
-      Step s c { c with threads := upd c.threads i (reader rq .searched (some (s.look c.index rq)) st c.log.length) }
+      Step d s c { c with threads := upd c.threads i (reader rq .searched (some (s.look c.index rq)) st c.log.length) }
   | rUnlock (c i rq a st n) (h : c.threads i = reader rq .searched (some a) st n) :
-      Step s c { c with readers := c.readers - 1, rset := c.rset.erase i,
-                        threads := upd c.threads i (reader rq .done (some a) st n) }
+      Step d s c { c with readers := c.readers - 1, rset := c.rset.erase i,
+                          threads := upd c.threads i (reader rq .done (some a) st n) }
+  /-- the clone (`pc = readK`) or the computation on the private clone (`pc = cloned`) panics; the deferred unlock
+      of `knownRulesMutex` runs while the panic unwinds -/
+  | wPanicReleased (hd : d.writerDeferred = true) (c i op pc loc) (h : c.threads i = writer op pc loc)
+      (hpc : pc = .readK ∨ pc = .cloned) (hl : c.wlock = some i) :
+      Step d s c { c with wlock := none, threads := upd c.threads i (writer op .crashed loc) }
+  /-- the same panic when the unlock is an explicit call at the exits: it is skipped, the mutex stays locked -/
+  | wPanicLeaked (hd : d.writerDeferred = false) (c i op pc loc) (h : c.threads i = writer op pc loc)
+      (hpc : pc = .readK ∨ pc = .cloned) (hl : c.wlock = some i) :
+      Step d s c { c with threads := upd c.threads i (writer op .crashed loc) }
+  /-- the search panics (a route matcher); the deferred read-unlock runs while the panic unwinds -/
+  | rPanicReleased (hd : d.readerDeferred = true) (c i rq st) (h : c.threads i = reader rq .rHeld none st 0) :
+      Step d s c { c with readers := c.readers - 1, rset := c.rset.erase i,
+                          threads := upd c.threads i (reader rq .crashed none st 0) }
+  /-- the same panic when the read-unlock is an explicit call after the search: it is skipped, the read lock
+      stays held by a goroutine that no longer exists -/
+  | rPanicLeaked (hd : d.readerDeferred = false) (c i rq st) (h : c.threads i = reader rq .rHeld none st 0) :
+      Step d s c { c with threads := upd c.threads i (reader rq .crashed none st 0) }
 
 /-- initial configurations: nothing locked, nothing committed, every thread at its start -/
 def Initial (s : Seq K T Op Req Ans) (c : Config K T Op Req Ans) : Prop :=
   (c.known, c.index) = s.init ∧ c.wlock = none ∧ c.rww = none ∧ c.readers = 0 ∧ c.log = [] ∧ c.owners = [] ∧ c.rset = [] ∧
   ∀ i, (∃ op loc, c.threads i = .writer op .idle loc) ∨ (∃ rq, c.threads i = .reader rq .idle none 0 0)
 
-inductive Reachable (s : Seq K T Op Req Ans) : Config K T Op Req Ans → Prop
-  | init (c) : Initial s c → Reachable s c
-  | step (c c') : Reachable s c → Step s c c' → Reachable s c'
+inductive Reachable (d : Discipline) (s : Seq K T Op Req Ans) : Config K T Op Req Ans → Prop
+  | init (c) : Initial s c → Reachable d s c
+  | step (c c') : Reachable d s c → Step d s c c' → Reachable d s c'
+
+/-- `c'` can be reached from `c` by any number of steps of any threads -/
+inductive Steps (d : Discipline) (s : Seq K T Op Req Ans) : Config K T Op Req Ans → Config K T Op Req Ans → Prop
+  | refl (c) : Steps d s c c
+  | step (c c' c'') : Steps d s c c' → Step d s c' c'' → Steps d s c c''
 
 end Heimdall.Conc
